@@ -48,12 +48,12 @@ func snapshotJSON(node string, shards ...history.ClusterShardID) []byte {
 }
 
 type rCase struct {
-	local  string // none | sent | shutdown | closed | closed+shutdown
-	ml     bool   // memberlist configured
-	mode   bool   // routing mode (the intra-proxy manager exists iff ml && mode)
-	owner  string // unknown | self | other | other-noaddr
-	fwd    string // ok | err | none   (the registered intra-proxy stream towards the owner)
-	allow  bool   // allowForward (acks)
+	local string // none | sent | shutdown | closed | closed+shutdown
+	ml    bool   // memberlist configured
+	mode  bool   // routing mode (the intra-proxy manager exists iff ml && mode)
+	owner string // unknown | self | other | other-noaddr
+	fwd   string // ok | err | none   (the registered intra-proxy stream towards the owner)
+	allow bool   // allowForward (acks)
 }
 
 func (c rCase) line(kind string) string {
@@ -411,7 +411,9 @@ func c09Reconcile(t *testing.T, e *Env) {
 			for sh := range locals {
 				lk = append(lk, sh)
 			}
-			sort.Slice(lk, func(i, j int) bool { return proxy.ClusterShardIDtoShortString(lk[i]) < proxy.ClusterShardIDtoShortString(lk[j]) })
+			sort.Slice(lk, func(i, j int) bool {
+				return proxy.ClusterShardIDtoShortString(lk[i]) < proxy.ClusterShardIDtoShortString(lk[j])
+			})
 			op := fmt.Sprintf("reconcile %s 1 %s %s %s 2 %s %s %s", csList(lk),
 				keyList(recvBefore["n1"]), keyList(senders[0]), csList(remote[0]),
 				keyList(recvBefore["n2"]), keyList(senders[1]), csList(remote[1]))
